@@ -96,6 +96,7 @@ def run(res, tier, seed):
             found += 1
 
     broken = None
+    bad, okrows = [], []
     try:
         info = common.check_property_file("C15")
         res.proof(info, "cd coq && make && coqc -Q . DS Properties/C15.v  (Print Assumptions parsed)")
@@ -129,6 +130,28 @@ def run(res, tier, seed):
         for h in hits[:2]:
             res.violation(dict(h, what="random result outside [min-mode, max-mode] (enlarged seed search)"))
             found += 1
+    if broken and not found and bad:
+        # the min / max-mode halves of the disagreement ARE the property: the definition (every die of every term at its lowest / highest
+        # face, then clamps and keeps — proved to bracket every roll, C15_common_bracket / C15_mono_expr_bracket) gives one number,
+        # the code another. Ask the model for its numbers on the first disagreeing expressions.
+        sub = [okrows[i] for i in bad[:6]]
+        items = ";\n".join(f"({dexpr_term(r['expr'])}, ({r['hi']}%N,{r['lo']}%N))" for r in sub)
+        out = common.coq_eval("c15_explain", HEADER + "Definition qs : list (dexpr * (N * N)) := [\n" + items + "].\n"
+                              "Definition ans := Eval vm_compute in map (fun q => let '(e, (h, l)) := q in let s := {| hi := h; lo := l |} in\n"
+                              "  (match deval pcg_next 256 (-1) e s with Done (a, _) => a | _ => (-999999999)%Z end,\n"
+                              "   match deval pcg_next 256 1 e s with Done (a, _) => a | _ => (-999999999)%Z end)) qs.\nPrint ans.\n")
+        import re as _re
+        pairs = _re.findall(r"\(\s*(-?\d+)(?:%Z)?\s*,\s*(-?\d+)(?:%Z)?\s*\)", out.split("ans =", 1)[-1].replace("\n", " ")) if "ans =" in out else []
+        for r, pr in zip(sub, pairs):
+            dmin, dmax = int(pr[0]), int(pr[1])
+            gmin, gmax = int(r["m-1"]["val"]["i"]), int(r["m1"]["val"]["i"])
+            if dmin == -999999999 or dmax == -999999999:
+                continue
+            if (gmin, gmax) != (dmin, dmax) and found < 2:
+                res.violation({"what": "the min-mode / max-mode result is not the value with every die at its lowest / highest face (the bound the definition "
+                                       "gives, which is attained and brackets every roll)", "text": r["text"], "code_min_mode": gmin, "definition_min": dmin,
+                               "code_max_mode": gmax, "definition_max": dmax, "random_result_under_this_seed": r["m0"]["str"], "seed_state": [r["hi"], r["lo"]]})
+                found += 1
     if broken and not found:
         res.violation({"broken": broken.what, "detail": broken.detail}, no_input=True)
 
